@@ -335,3 +335,108 @@ Section Consequences.
       specialize (Fc' u Hu w O). apply (gi_range Ig) in Fc'. lia.
   Qed.
 End Consequences.
+
+(* ------------------------------------------------------------------ adequacy of [visits] *)
+(* the relation is not too small: every solution of a run is a configuration that the run visits *)
+Section Adequacy.
+  Variable uf : nat.
+  Variable prog : program.
+
+  Section LoopsA.
+    Variable rec : list goal -> store -> glob -> res.
+
+    Lemma scanq_ans args r s stk : forall l g g' a tr s', scanq uf rec args r s l g = Some (g', a, tr) -> In s' a ->
+      exists c g1 a1 t1, cq uf rec args r s stk l g c /\ rec (cgs c) (cst c) (cg c) = Some (g1, a1, t1) /\ In s' a1.
+    Proof.
+      induction l as [|f l IH]; intros g g' a tr s' H Hin; cbn [scanq] in H.
+      - inversion H; subst. contradiction.
+      - destruct (answer_match_fast uf s (gn g) args (fargs f)) as [u n1] eqn:M. destruct u as [s1| | |]; try discriminate.
+        + destruct (rec r s1 (set_n g n1)) as [[[g1 a1] t1]|] eqn:ER; [|discriminate]. cbn [bindr] in H.
+          destruct (scanq uf rec args r s l g1) as [[[g2 a2] t2]|] eqn:ES; [|discriminate]. inversion H; subst; clear H.
+          apply in_app_or in Hin as [Hin|Hin].
+          * exists (r, s1, set_n g n1, (args, l) :: stk), g1, a1, t1. split; [eapply cq_here; eauto|]. split; auto.
+          * destruct (IH _ _ _ _ _ ES Hin) as [c [gx [ax [tx [A B]]]]]. exists c, gx, ax, tx. split; auto.
+            eapply cq_later_ok; eauto.
+        + destruct (IH _ _ _ _ _ H Hin) as [c [gx [ax [tx [A B]]]]]. exists c, gx, ax, tx. split; auto.
+          eapply cq_later_no; eauto.
+    Qed.
+
+    Lemma scanr_ans k args r s stk : forall l g g' a tr s', scanr uf rec k args r s l g = Some (g', a, tr) -> In s' a ->
+      exists c g1 a1 t1, cr uf rec k args r s stk l g c /\ rec (cgs c) (cst c) (cg c) = Some (g1, a1, t1) /\ In s' a1.
+    Proof.
+      induction l as [|f l IH]; intros g g' a tr s' H Hin; cbn [scanr] in H.
+      - inversion H; subst. contradiction.
+      - destruct (answer_match_fast uf s (gn g) args (fargs f)) as [u n1] eqn:M. destruct u as [s1| | |]; try discriminate.
+        + destruct (has_id (fid f) (gdb g k)) eqn:HI.
+          * destruct (rec r s1 (mkg (upd k (del_id (fid f) (gdb g k)) (gdb g)) (gid g) n1 (gw g))) as [[[g1 a1] t1]|] eqn:ER; [|discriminate].
+            cbn [bindr] in H.
+            destruct (scanr uf rec k args r s l g1) as [[[g2 a2] t2]|] eqn:ES; [|discriminate]. inversion H; subst; clear H.
+            apply in_app_or in Hin as [Hin|Hin].
+            -- exists (r, s1, mkg (upd k (del_id (fid f) (gdb g k)) (gdb g)) (gid g) n1 (gw g), (args, l) :: stk), g1, a1, t1.
+               split; [eapply cr_here; eauto|]. split; auto.
+            -- destruct (IH _ _ _ _ _ ES Hin) as [c [gx [ax [tx [A B]]]]]. exists c, gx, ax, tx. split; auto.
+               eapply cr_later_ok; eauto.
+          * destruct (IH _ _ _ _ _ H Hin) as [c [gx [ax [tx [A B]]]]]. exists c, gx, ax, tx. split; auto.
+            eapply cr_later_gone; eauto.
+        + destruct (IH _ _ _ _ _ H Hin) as [c [gx [ax [tx [A B]]]]]. exists c, gx, ax, tx. split; auto.
+          eapply cr_later_no; eauto.
+    Qed.
+
+    Lemma tryclauses_ans args r s stk : forall cls g g' a tr s', tryclauses uf rec args r s cls g = Some (g', a, tr) -> In s' a ->
+      exists c g1 a1 t1, ct uf rec args r s stk cls g c /\ rec (cgs c) (cst c) (cg c) = Some (g1, a1, t1) /\ In s' a1.
+    Proof.
+      induction cls as [|cl cs IH]; intros g g' a tr s' H Hin; cbn [tryclauses] in H.
+      - inversion H; subst. contradiction.
+      - destruct (unify_arrays_fast uf s args (map (shift (gn g)) (chead cl))) as [s1| | |] eqn:U; try discriminate.
+        + destruct (rec (map (shift_goal (gn g)) (cbody cl) ++ r) s1 (set_n g (gn g + cnv cl))) as [[[g1 a1] t1]|] eqn:ER; [|discriminate].
+          cbn [bindr] in H.
+          destruct (tryclauses uf rec args r s cs g1) as [[[g2 a2] t2]|] eqn:ES; [|discriminate]. inversion H; subst; clear H.
+          apply in_app_or in Hin as [Hin|Hin].
+          * exists (map (shift_goal (gn g)) (cbody cl) ++ r, s1, set_n g (gn g + cnv cl), (args, []) :: stk), g1, a1, t1.
+            split; [eapply ct_here; eauto|]. split; auto.
+          * destruct (IH _ _ _ _ _ ES Hin) as [c [gx [ax [tx [A B]]]]]. exists c, gx, ax, tx. split; auto.
+            eapply ct_later_ok; eauto.
+        + destruct (IH _ _ _ _ _ H Hin) as [c [gx [ax [tx [A B]]]]]. exists c, gx, ax, tx. split; auto.
+          eapply ct_later_no; eauto.
+    Qed.
+  End LoopsA.
+
+  Theorem visits_answers : forall n gs s g g' a tr stk s', solve uf prog n gs s g = Some (g', a, tr) -> In s' a ->
+    exists g'' stk', visits uf prog n (gs, s, g, stk) ([], s', g'', stk').
+  Proof.
+    induction n as [|n IH]; intros gs s g g' a tr stk s' H Hin; [discriminate|].
+    cbn [solve] in H. destruct (gw g) as [|w] eqn:Ew; [discriminate|]. cbn [gdb gid gn gw] in H. fold (tick g w) in H.
+    assert (Sub: forall c g1 a1 t1, calls uf prog n (gs, s, g, stk) c -> solve uf prog n (cgs c) (cst c) (cg c) = Some (g1, a1, t1) ->
+                 In s' a1 -> exists g'' stk', visits uf prog (S n) (gs, s, g, stk) ([], s', g'', stk')).
+    { intros [[[gs1 s1] gg1] stk1] g1 a1 t1 Hc Hs Hi. unfold cgs, cst, cg in Hs; simpl in Hs.
+      destruct (IH _ _ _ _ _ _ stk1 s' Hs Hi) as [g'' [stk' V]]. exists g'', stk'. eapply v_call; eauto. }
+    destruct gs as [|[x y|name args|front t|t|t] r].
+    - inversion H; subst a. simpl in Hin. destruct Hin as [E|[]]. subst s'. exists g, stk. apply v_here.
+    - destruct (unify_fast uf s x y) as [s1| | |] eqn:U; try discriminate.
+      + eapply (Sub (r, s1, tick g w, stk)); [eapply c_unify; eauto|exact H|exact Hin].
+      + inversion H; subst. contradiction.
+    - destruct (scanq uf (solve uf prog n) args r s (gdb g (name, length args)) (tick g w)) as [[[g1 a1] t1]|] eqn:ES; [|discriminate].
+      cbn [bindr] in H.
+      destruct (tryclauses uf (solve uf prog n) args r s (clauses_of prog name (length args)) g1) as [[[g2 a2] t2]|] eqn:ET; [|discriminate].
+      inversion H; subst; clear H. apply in_app_or in Hin as [Hin|Hin].
+      + destruct (@scanq_ans _ args r s stk _ _ _ _ _ s' ES Hin) as [c [gx [ax [tx [A [B C]]]]]].
+        eapply (Sub c); [eapply c_call_facts; eauto|exact B|exact C].
+      + destruct (@tryclauses_ans _ args r s stk _ _ _ _ _ s' ET Hin) as [c [gx [ax [tx [A [B C]]]]]].
+        eapply (Sub c); [eapply c_call_clauses; eauto|exact B|exact C].
+    - destruct (callable (den_fast s t)) as [[name args]|] eqn:CA.
+      + destruct (answer_init_fast s args (gn g)) as [stored n1] eqn:AI.
+        match type of H with match ?X with _ => _ end = _ => destruct X as [[[g1 a1] t1]|] eqn:E; [|discriminate] end.
+        inversion H; subst; clear H.
+        eapply (Sub (r, s, _, stk)); [eapply c_assert; eauto|exact E|exact Hin].
+      + eapply (Sub (r, s, tick g w, stk)); [eapply c_assert_skip; eauto|exact H|exact Hin].
+    - destruct (callable (den_fast s t)) as [[name args]|] eqn:CA.
+      + destruct (@scanr_ans _ (name, length args) args r s stk _ _ _ _ _ s' H Hin) as [c [gx [ax [tx [A [B C]]]]]].
+        eapply (Sub c); [eapply c_retract; eauto|exact B|exact C].
+      + inversion H; subst. contradiction.
+    - destruct (callable (den_fast s t)) as [[name args]|] eqn:CA; [|inversion H; subst; contradiction].
+      destruct (rallh uf s args (gdb g (name, length args)) (gn g)) as [[[keep gone] n1]|] eqn:RA; [|discriminate].
+      match type of H with match ?X with _ => _ end = _ => destruct X as [[[g1 a1] t1]|] eqn:E; [|discriminate] end.
+      inversion H; subst; clear H.
+      eapply (Sub (r, s, _, stk)); [eapply c_retractall; eauto|exact E|exact Hin].
+  Qed.
+End Adequacy.
